@@ -50,7 +50,8 @@ def in_d8(cfg):
 def draw_config(draw, ctx, nps, n_jobs_choices=(1,)):
     for _ in range(20):
         cfg = draw(gen.config_st(nps=nps, arm_kinds=("int", "str"), max_arms=4, with_binarizer=False, scale_ok=True,
-                                 defaults_ok=True, tree_parallel_ok=True, n_jobs_choices=n_jobs_choices))
+                                 defaults_ok=True, tree_parallel_ok=True, n_jobs_choices=n_jobs_choices,
+                                 metrics=gen.MANY_METRICS))
         if in_d7(cfg) and D7 in ctx.active:
             ctx.exclude(D7)
             continue
@@ -150,7 +151,11 @@ def evaluate_locality(plan, ctx):
     is_predict = plan["is_predict"]
     kind = "predict" if is_predict else "predict_expectations"
     blob = pickle.dumps(imp, protocol=4)
-    whole = canon_list(kind, pickle.loads(blob)._predict_contexts(rows, is_predict, seeds, 0))
+    try:
+        whole = canon_list(kind, pickle.loads(blob)._predict_contexts(rows, is_predict, seeds, 0))
+    except Exception as e:
+        # e.g. mahalanobis with fewer rows than features: the metric rejects the data for every partition alike
+        return Result(False, ["metric_rejects_data:" + type(e).__name__], skipped=True)
     if plan["comps"] is None:
         comps = [[i + 1 for i in range(n - 1) if (mask >> i) & 1] for mask in range(1, 2 ** (n - 1))]
     else:
@@ -161,8 +166,12 @@ def evaluate_locality(plan, ctx):
         chunks = list(zip(bounds, bounds[1:]))
         # process-like: every chunk on its own unpickled copy
         got = []
-        for s, e in chunks:
-            got += canon_list(kind, pickle.loads(blob)._predict_contexts(rows[s:e], is_predict, seeds[s:e], s))
+        try:
+            for s, e in chunks:
+                got += canon_list(kind, pickle.loads(blob)._predict_contexts(rows[s:e], is_predict, seeds[s:e], s))
+        except Exception as e:
+            raise Violation("partition_dependent", "chunks %r raised %r although the whole batch succeeded" % (chunks, e),
+                            bucket="partition_dependent_exception:" + _class(cfg))
         if not ops.same(got, whole):
             raise Violation("partition_dependent", "process-like, chunks %r: rows give %s, whole batch %s"
                             % (chunks, ops.short(got), ops.short(whole)),
@@ -247,9 +256,10 @@ def evaluate_schedule(plan, ctx):
     ref_cfg = dict(cfg, n_jobs=1, backend=None)
     ref = ops.build(ref_cfg)
     want = ops.run_ops(ref, plan["ops"])
-    for i, o in enumerate(want):
-        if ops.is_exc(o):
-            raise Violation("unexpected_exception", "n_jobs=1: op %d %s raised %s" % (i, plan["ops"][i][0], ops.short(o)))
+    metric_exc = any(ops.is_exc(o) for o in want)
+    if metric_exc and not (cfg["np"] and cfg["np"][1].get("metric") in ("mahalanobis", "seuclidean")):
+        i = next(i for i, o in enumerate(want) if ops.is_exc(o))
+        raise Violation("unexpected_exception", "n_jobs=1: op %d %s raised %s" % (i, plan["ops"][i][0], ops.short(want[i])))
     s = sched.Schedule(plan["keys"], plan["mode"])
     with sched.owned_schedule(s):
         b = ops.build(cfg)
@@ -319,9 +329,9 @@ def evaluate_joblib(plan, ctx):
     cfg = plan["config"]
     ref = ops.build(dict(cfg, n_jobs=1, backend=None))
     want = ops.run_ops(ref, plan["ops"])
-    for i, o in enumerate(want):
-        if ops.is_exc(o):
-            raise Violation("unexpected_exception", "n_jobs=1: op %d raised %s" % (i, ops.short(o)))
+    if any(ops.is_exc(o) for o in want) and not (cfg["np"] and cfg["np"][1].get("metric") in ("mahalanobis", "seuclidean")):
+        i = next(i for i, o in enumerate(want) if ops.is_exc(o))
+        raise Violation("unexpected_exception", "n_jobs=1: op %d raised %s" % (i, ops.short(want[i])))
     nmax = max([len(op[1]) for op in plan["ops"] if op[0] in ("predict", "predict_expectations") and op[1]] + [1])
     pairs = [(2, None), (3, "threading"), (nmax + 1, "threading"), (-1, "threading"), (-2, "threading"), (2, "loky")]
     if ctx.tier == "thorough":
